@@ -8,10 +8,17 @@ Decided structurally on the monomorphic MIR (feature `bcrypt`):
     Blowfish keying" and "the raw encrypt applies the current state's Blowfish permutation".
  W  `salted_expand_key` calls, inside /repo, only `next_u32_wrap` and `encrypt` (the same instances as above), and all
     its stores go to `self`.
-Not decided: that the 9 + 512 chained encryptions with cyclic salt XOR are eksblowfish ExpandKey, the zero-salt
-equivalence, and long call histories.
+ X  (c14_terms.py, engine L3) for a symbolic state, key and salt, `salted_expand_key` leaves exactly the state of the
+    reference ExpandKey(state, salt, key) -- key and salt cycled, salt words XORed into the running block before each
+    of the 9 + 512 chained encryptions, entries written in order -- with the state's Blowfish permutation as an
+    uninterpreted function of the *current* state contents; `bc_expand_key` leaves the reference state for the zero
+    salt; `new_from_slice` is the plain expansion of the initial constants.  Because the state is symbolic, any sequence
+    of steps composes (induction over the call history).
+Not decided: that `encrypt` itself is the 16-round Blowfish permutation (conformance, C09), and key / salt lengths
+that are not enumerated.
 """
 from facts import *
+import c14_terms
 
 PAIRS = {'bc_init_state': 'init_state', 'bc_expand_key': 'expand_key', 'bc_encrypt': 'encrypt'}
 
@@ -47,7 +54,10 @@ def repo_calls(m, f):
 
 
 def run(chk, facts_by_config):
-    chk.undecided += ['salted_expand_key is eksblowfish ExpandKey(state, salt, key)', 'zero-salt equivalence', 'call histories of any length']
+    chk.undecided += ['`encrypt` is the Blowfish permutation of the state (conformance)', 'key / salt lengths beyond those enumerated']
+    chk.trusted += ['the rewrite rules of analysis/terms.py', 'the reference ExpandKey written from the property text (analysis/c14_terms.py)']
+    import multiprocessing as mp
+    pool = mp.Pool(min(16, os.cpu_count() or 4))
     for cfgname, F in facts_by_config.items():
         if 'bcrypt' not in F.meta['cfg']['features']:
             continue
@@ -123,3 +133,7 @@ def run(chk, facts_by_config):
             else:
                 chk.ok('W-salted-callees', key, dict(fn='salted_expand_key', repo_callees=sorted(names)))
         chk.floor('instances', n, 'n.' + cfgname)
+        if cfgname in ('x64-all', 'a64-all', 'x86-all'):
+            nx = c14_terms.run_rule(chk, cfgname, F, pool)
+            chk.floor('X-instances', nx, 'X.' + cfgname)
+    pool.close()
